@@ -44,6 +44,10 @@ def typing_obligations(run, prop, rule, repo, sc, scen, mods=None):
             where, cons, f, ln = ev_where(repo, e, mods)
             run.oblige(rule, (where, cons, 'err'), False)
             run.add(Finding(prop, rule, where, cons, f'ill-typed contraction ({scen}): {e["detail"]}', f, ln, {'scenario': scen, 'path': e.get('callers')}))
+        elif k == 'layout-dependent' and any(l.resolve().kind in ('R', 'M') for g in e['array'].legs for l in g):
+            where, cons, f, ln = ev_where(repo, e, mods)
+            run.oblige(rule, (where, cons, 'layout'), False)
+            run.add(Finding(prop, rule, where, cons, f'the index order of an unfolding depends on the memory layout of a core ({scen}): {e["detail"]}', f, ln, {'scenario': scen}))
         elif k == 'sum-type-error':
             where, cons, f, ln = ev_where(repo, e, mods)
             run.oblige(rule, (where, cons, 'sum'), False)
@@ -135,6 +139,33 @@ def cut_respected(sc, roots):
                     probs.append(f'{a.shape[1]} columns of the left factor are kept although only {k} singular values pass the threshold test (the cut is overridden, e.g. by a cap computed '
                                  f'from the uncut length)')
     return sorted(set(probs))
+
+
+def cut_decompositions_of(sc, sources):
+    """the decompositions (svd events) whose singular values go through a threshold test and whose input is computed from one of the arrays `sources`"""
+    src = {id(a) for a in sources}
+    svd_by_uid = {e['uid']: e for e in sc.events('svd')}
+    out = []
+    for e in sc.events('where'):
+        todo, seen, uid = [e.get('cond')], set(), None
+        while todo and uid is None:
+            a = todo.pop()
+            if not isinstance(a, Arr) or id(a) in seen:
+                continue
+            seen.add(id(a))
+            pv = a.tags.get('prov')
+            if isinstance(pv, dict) and 'svd' in pv:
+                if pv.get('role') == 's':
+                    uid = pv['svd']
+                continue
+            todo.extend(a.parents or ())
+            ex = a.tags.get('expr')
+            if ex:
+                todo.extend(o for o in ex[1] if isinstance(o, Arr))
+        ev = svd_by_uid.get(uid)
+        if ev is not None and src & set(A.ancestors([ev['array']])) and not any(o_ is ev for o_ in out):
+            out.append(ev)
+    return out
 
 
 def whole_matrix_call_obligations(run, prop, rule, repo, sc, scen, mods=None):
